@@ -111,6 +111,13 @@ func main() {
 		for _, id := range ids {
 			fmt.Println(id)
 		}
+	case "absdump":
+		// absdump <pkg-rel> <recv|-> <func>
+		r := pos[1]
+		if r == "-" {
+			r = ""
+		}
+		absdump(repo, pos[0], r, pos[2])
 	case "selfcheck":
 		os.Exit(selfcheck(verif))
 	case "explain":
